@@ -10,7 +10,7 @@ RULE = ("random worlds x histories (as C05) with NORMALISING stores (read return
 TRUSTED_BASE = ["harness/cache_corr.py worlds (in-memory normalising stores, one logical clock)", "harness/transform_corr.py canonicalisation of physical plans by role"]
 
 
-def order_monitor(ctx, w, output, res, log, stale):
+def order_monitor(ctx, w, output, res, log, stale, prefix=""):
     """log entries: ('call', i, args) / ('read', sid) / ('write-begin', sid) / ('write', sid)"""
     node_of_store = {m["store"]: i for i, m in enumerate(w.meta) if m["store"] is not None}
     pos = {}
@@ -26,22 +26,22 @@ def order_monitor(ctx, w, output, res, log, stale):
             mj = w.meta[j]
             if mj["store"] is not None:
                 if not (isinstance(a, tuple) and a and a[0] == "read"):
-                    ctx.fail("consumer-got-in-memory-value", "call %d received %r for its stored argument %d instead of the store's read value" % (i, a, j), rep)
+                    ctx.fail(prefix + "consumer-got-in-memory-value", "call %d received %r for its stored argument %d instead of the store's read value" % (i, a, j), rep)
                 r = pos.get(("read", mj["store"]))
                 if r is None or r > start:
-                    ctx.fail("consumer-before-read", "call %d started before store of node %d was read" % (i, j), rep)
+                    ctx.fail(prefix + "consumer-before-read", "call %d started before store of node %d was read" % (i, j), rep)
                 if j in stale and not mj["is_src"]:
                     wr = pos.get(("write", mj["store"]))
                     if wr is None or r is None or not (wr < r < start):
-                        ctx.fail("not-write-read-consume", "node %d rebuilt: expected write < read-back < start of consumer %d, got %r %r %r" % (j, i, wr, r, start), rep)
+                        ctx.fail(prefix + "not-write-read-consume", "node %d rebuilt: expected write < read-back < start of consumer %d, got %r %r %r" % (j, i, wr, r, start), rep)
             elif isinstance(a, tuple) and a and a[0] == "read":
-                ctx.fail("unstored-arg-read", "call %d received a store value for unstored argument %d" % (i, j), rep)
+                ctx.fail(prefix + "unstored-arg-read", "call %d received a store value for unstored argument %d" % (i, j), rep)
         for j in m["deps"]:
             mj = w.meta[j]
             if mj["store"] is not None and not mj["is_src"] and j in stale:
                 wr = pos.get(("write", mj["store"]))
                 if wr is None or wr > start:
-                    ctx.fail("dependent-before-write", "call %d merely depends on rebuilt node %d but started before its write" % (i, j), rep)
+                    ctx.fail(prefix + "dependent-before-write", "call %d merely depends on rebuilt node %d but started before its write" % (i, j), rep)
     # downstream stored values rebuilt after upstream ones
     for i, m in enumerate(w.meta):
         if m["store"] is None or m["is_src"] or i not in stale:
@@ -51,7 +51,7 @@ def order_monitor(ctx, w, output, res, log, stale):
             if j in stale and not mj["is_src"]:
                 a, b = pos.get(("write", mj["store"])), pos.get(("write", m["store"]))
                 if res[0] == "ok" and (a is None or b is None or a > b):
-                    ctx.fail("downstream-not-after-upstream", "stored node %d (downstream of rebuilt %d) was not rebuilt after it (%r, %r)" % (i, j, a, b), rep)
+                    ctx.fail(prefix + "downstream-not-after-upstream", "stored node %d (downstream of rebuilt %d) was not rebuilt after it (%r, %r)" % (i, j, a, b), rep)
     # a stale dependent source is read only after the calls it depends on have run and after the writes of the
     # rebuilt stored values it depends on
     for i, m in enumerate(w.meta):
@@ -61,15 +61,15 @@ def order_monitor(ctx, w, output, res, log, stale):
                 if mj["store"] is not None and not mj["is_src"] and j in stale:
                     wr = pos.get(("write", mj["store"]))
                     if wr is None or wr > pos[("read", m["store"])]:
-                        ctx.fail("stale-source-read-before-write", "out-of-date dependent source %d was read before the rebuilt value %d it depends on was written" % (i, j), rep)
+                        ctx.fail(prefix + "stale-source-read-before-write", "out-of-date dependent source %d was read before the rebuilt value %d it depends on was written" % (i, j), rep)
             for j in m["deps"]:
                 if w.meta[j]["kind"] == "call" and w.meta[j]["store"] is None:
                     c = pos.get(("call", j))
                     if c is None or c > pos[("read", m["store"])]:
-                        ctx.fail("stale-source-read-early", "out-of-date dependent source %d was read before call %d it depends on ran" % (i, j), rep)
+                        ctx.fail(prefix + "stale-source-read-early", "out-of-date dependent source %d was read before call %d it depends on ran" % (i, j), rep)
     if res[0] == "ok" and output is not None and w.meta[output]["store"] is not None:
         if not (isinstance(res[1], tuple) and res[1] and res[1][0] == "read"):
-            ctx.fail("output-not-read-value", "run returned %r for stored output node %d instead of the store's read value" % (res[1], output), rep)
+            ctx.fail(prefix + "output-not-read-value", "run returned %r for stored output node %d instead of the store's read value" % (res[1], output), rep)
 
 
 def fault_monitor(ctx, w, output, log, k, stale):
@@ -127,8 +127,13 @@ def run(ctx):
             output = rng.choice([None] + list(range(w.n)))
             fresh = cache_corr.random_fresh(w, rng)
             saved0 = [(s_.v, s_.t) for s_ in w.stores]
+            sigma_before = w.sigma()
             tc.observe(w, output, fresh, [wi, step])
             stale = set(w._stale_now)
+            # the monitors judge by what IS out of date (declarative oracle, as in C05), not only by what the implementation
+            # found out of date: a rebuilt value's dependency-only successors included
+            utd_o, _ = w.up_to_date(sigma_before, fresh)
+            stale_mon = stale | {i for i, ok in utd_o.items() if not ok}
             # an identity transform_physical callback must not change anything (it receives the redirected output node)
             tp = rng.choice([None, None, lambda pl, out: (pl, out)])
             nw = rng.choice([1, 3])
@@ -136,7 +141,7 @@ def run(ctx):
             res = w.run(output, fresh, workers=nw, scheduler=rng.choice([None, "random"]), transform=tp)
             w.slow_writes = 0
             ctx.count("transform_physical", tp is not None)
-            order_monitor(ctx, w, output, res, list(w.log), stale)
+            order_monitor(ctx, w, output, res, list(w.log), stale_mon)
             if rng.random() < 0.5 and w.opcount > 0 and res[0] == "ok":
                 # the same kind of run with a fault injected at a random operation and errors tolerated
                 k = rng.randrange(1, w.opcount + 1)
